@@ -16,6 +16,9 @@ CLAIMED['C12'] = dict(design='5 (C12), 2', note='trusted: MIRSE MIR semantics + 
     'Levenshtein / OSA dynamic programme evaluated on the same symbolic characters; bounds in evidence.coverage.bounds; known finding '
     'KF-C12-1 (normalised distance > 1 under spaces_insert_delete_only) excluded only while its witness reproduces; NaN defect repaired '
     'by fix commit d9c2acd')
+CLAIMED['C18'] = dict(design='5 (C18), 2', note='trusted: MIRSE MIR semantics + std models; the word-match relation is a symbolic Boolean '
+    'matrix supplied through the real generic entry point match_words_with, plus the real closures of match_words on symbolic ASCII '
+    'one-letter words; oracle = reference LCS DP; HashSet iteration order fixed (results compared as sets); bounds in evidence')
 NOT_YET = 'check not built yet in this session (work in progress, see DESIGN.md section 6 for the order)'
 NA = {}
 
